@@ -1,6 +1,23 @@
 """C37 -- path patterns match exactly their expansions; counts; rejection; precedence order-independent.
 
-(work in progress: generator)
+design      : PathPattern.tla -- declarative reference for interfaces/prompting/patterns:
+              Expand(p) (built like parse.go/render.go: optimize() joins literals, drops node-equal
+              alternatives, collapses one-alternative groups; enumeration order of RenderAllVariants),
+              NumVariants/Accepted (limit 1000), PPM(v, path) for a brace-less v (the trailing-'/' rules of
+              PathPatternMatches around doublestar.Match v4.6.1 semantics), Valid(s) (scanner/parser),
+              RefMatch(p, path) == \\E v \\in Expand(p): PPM(v, path).
+              TLC checks laws on the reference (PathPattern_mc.cfg, one state per pattern): NumVariants =
+              Len(Expand), optimize() is neutral w.r.t. the set of expansions, expansions are valid brace-less
+              patterns, trailing-'/' rules, escapes.
+conformance : T->I  TLC tabulates the reference in factored form (PathPatternTable.tla): per pattern
+                    NumVariants/Accepted/Expand; per distinct expansion the set of matching paths; per
+                    pattern string Valid. The driver harness/ext/pathpat evaluates the real ParsePathPattern,
+                    NumVariants, RenderAllVariants, PathPatternMatches on the same whole domain.
+              laws  directly on the real outputs: match(p) = OR match(expansions) = OR match(enumerated
+                    variants); NumVariants = callbacks <= 1000; Compare is a strict weak order on the
+                    variants matching a path and HighestPrecedencePattern is order-independent.
+              I->T  seeded random patterns beyond the bound (TracePathPattern, mode match) and recorded
+                    Compare matrices + winners for every permutation of 2..4 matching variants (mode prec).
 """
 import itertools
 import json
@@ -130,3 +147,467 @@ def family_big():
     out.append(txt("/") + [grp(*[[g(10), g(10, "b"), ch(48 + i)] for i in range(10)]), g(1, "z")])  # 10*100 = 1000
     out.append(txt("/") + [grp(*[[g(10), g(10, "b"), ch(48 + i)] for i in range(10)] + [txt("q")])])  # 1001
     return out
+
+
+# ---------------------------------------------------------------------------------------------
+
+STR_ALPHABET = "/a{},\\[*"          # pattern strings for the accept/reject table
+
+
+def strings_domain(maxlen):
+    out = []
+    for n in range(maxlen + 1):
+        for t in itertools.product(STR_ALPHABET, repeat=n):
+            out.append("".join(t))
+    # a few fixed shapes beyond the alphabet / length bound
+    out += ["a", "a/b", "/a]", "/a\\]", "/a\\[b\\]", "/{a,{b,c}", "/{a,{b,c}}}", "/a/{b,c}/\\", "/a\\\\", "/a\\\\\\",
+            "/{{{{{{a}}}}}}", "/" + "{" * 12 + "a" + "}" * 12, "/" + "{" * 12 + "a" + "}" * 11, "/a,b", "/{a,b},c",
+            "/\\{a", "/\\}a", "/{\\},a}", "/{a\\,b}", "/{,}", "/{}", "/{{},{}}"]
+    seen = set()
+    res = []
+    for s_ in out:
+        if s_ not in seen:
+            seen.add(s_)
+            res.append(s_)
+    return res
+
+
+def build_domain(ctx, rnd):
+    """-> list of (ast, big) without duplicates (by rendered string)"""
+    fams = []
+    if ctx.quick:
+        fams.append(("plain", list(family_plain(3)), None))
+        fams.append(("one-group", list(family_one_group()), 700))
+        fams.append(("three-alts", list(family_three_alts()), 200))
+        fams.append(("nested", list(family_nested()), 300))
+        fams.append(("two-groups", list(family_two_groups()), 200))
+    else:
+        fams.append(("plain", list(family_plain(4)), None))
+        fams.append(("one-group", list(family_one_group()), None))
+        fams.append(("three-alts", list(family_three_alts()), None))
+        fams.append(("nested", list(family_nested()), None))
+        fams.append(("two-groups", list(family_two_groups()), None))
+    seen = set()
+    out = []
+    sizes = {}
+    for name, lst, k in fams:
+        if k is not None and k < len(lst):
+            lst = rnd.sample(lst, k)
+        n0 = len(out)
+        for a in lst:
+            s_ = render(a)
+            if s_ not in seen:
+                seen.add(s_)
+                out.append((a, False))
+        sizes[name] = len(out) - n0
+    for a in family_big():
+        out.append((a, True))
+    sizes["around-limit"] = len(family_big())
+    return out, sizes
+
+
+def codes(s_):
+    return [ord(c) for c in s_]
+
+
+def write_json(path, obj):
+    with open(path, "w") as f:
+        json.dump(obj, f, separators=(",", ":"))
+
+
+def chunk(lst, n):
+    per = (len(lst) + n - 1) // n if lst else 1
+    return [lst[i:i + per] for i in range(0, len(lst), per)]
+
+
+FEATURES = [("dupsep", "//"), ("stars3", "***"), ("dsds", "/**/**"), ("ds-star", "/**/*")]
+
+
+def norm_class(ex):
+    f = []
+    if "//" in ex:
+        f.append("dupsep")
+    if "***" in ex:
+        f.append("stars3")
+    if "/**/**" in ex:
+        f.append("dsds")
+    elif ex.endswith("/**/*") or "/**/*/" in ex:
+        f.append("ds-star")
+    return "+".join(f) or "other"
+
+
+def table_violations(rows, out, totals, limit_tag=""):
+    """Turn the NDJSON difference records of the drivers into Violations."""
+    for r in rows:
+        k = r.get("kind")
+        if k == "glob":
+            out.append(Violation(
+                key="glob: PathPatternMatches(%s,%s)" % (rt.q(r["v"]), rt.q(r["path"])),
+                desc="PathPatternMatches(%s,%s) = %s but the reference PPM (doublestar semantics + trailing-'/' rules) gives %s"
+                     % (rt.q(r["v"]), rt.q(r["path"]), r["got"], r["exp"]), replay=r))
+        elif k == "accept":
+            cls = "accepts-invalid" if r["got_ok"] else "rejects-valid"
+            out.append(Violation(
+                key="%s: %s" % (cls, rt.q(r["p"])),
+                desc="ParsePathPattern(%s) %s but the reference says it is %s%s"
+                     % (rt.q(r["p"]), "succeeds" if r["got_ok"] else "fails (%s)" % r["err"],
+                        "valid" if r["exp_ok"] else "invalid",
+                        (" (%d expansions, limit %d)" % (r["ref_n"], LIMIT)) if r.get("ref_n", -1) >= 0 else ""), replay=r))
+        elif k == "count":
+            out.append(Violation(
+                key="numvariants: %s" % rt.q(r["p"]),
+                desc="%s: NumVariants() = %d, RenderAllVariants made %d callbacks (indices in order: %s), reference Len(Expand) = %s, limit %d"
+                     % (rt.q(r["p"]), r["n"], r["calls"], r["idx_ok"], r["ref_n"] if r["ref_n"] >= 0 else "n/a", LIMIT), replay=r))
+        elif k == "match":
+            out.append(Violation(
+                key="match[%s]: %s" % (r["dir"], rt.q(r["p"])),
+                desc="PathPatternMatches(%s,%s) = %s but %s of its expansions %s matches that path (%d path(s) of the domain differ)"
+                     % (rt.q(r["p"]), rt.q(r["path"]), r["dir"] == "pattern-only",
+                        "none" if r["dir"] == "pattern-only" else "one", json.dumps(r["ex"]), r["npaths"]), replay=r))
+        elif k == "normalise":
+            if r["dir"] == "count":
+                out.append(Violation(key="variant[count]: %s" % rt.q(r["p"]),
+                                     desc="the variants enumerated for %s match differently from its expansions and their number differs" % rt.q(r["p"]),
+                                     replay=r))
+                continue
+            out.append(Violation(
+                key="variant[%s]: %s" % (norm_class(r["ex"]), rt.q(r["ex"])),
+                desc="expansion %s (of %s) is enumerated as variant %s, and PathPatternMatches(%s,%s) = %s but PathPatternMatches(%s,%s) = %s"
+                     % (rt.q(r["ex"]), rt.q(r["p"]), rt.q(r["var"]), rt.q(r["ex"]), rt.q(r["path"]), r["dir"] == "expansion-only",
+                        rt.q(r["var"]), rt.q(r["path"]), r["dir"] != "expansion-only"), replay=r))
+        elif k == "variants":
+            out.append(Violation(
+                key="variants: PathPatternMatches(%s,%s)" % (rt.q(r["p"]), rt.q(r["path"])),
+                desc="PathPatternMatches(%s,%s) = %s but the OR over its enumerated variants is %s"
+                     % (rt.q(r["p"]), rt.q(r["path"]), r["pattern"], r["variants"]), replay=r))
+        elif k == "match-error":
+            out.append(Violation(key="match-error", desc="PathPatternMatches returned an error %d times on parsed patterns" % r["n"], replay=r))
+        elif k == "law":
+            vs = r["variants"]
+            out.append(Violation(
+                key="precedence-%s: path=%s variants=%s" % (r["law"], rt.q(r["path"]), json.dumps(vs)),
+                desc="on path %s the real PatternVariant.Compare / HighestPrecedencePattern violates '%s' for variants %s"
+                     % (rt.q(r["path"]), r["law"], json.dumps(vs)), replay=r))
+    return out
+
+
+def klass(v):
+    return v.key.split(":")[0]
+
+
+def run(ctx):
+    violations = []
+    notes = []
+    par = ctx.pick(4, 10)
+    rnd = random.Random(ctx.seed)
+    P = paths(not ctx.quick)
+    pcodes = [codes(p) for p in P]
+    dom, sizes = build_domain(ctx, rnd)
+    ddir = ctx.subdir("domain")
+    ctx.log("domain: %d patterns %s, %d paths" % (len(dom), sizes, len(P)))
+
+    # ---- domain files
+    recs = [{"id": i + 1, "ast": a, "big": big} for i, (a, big) in enumerate(dom)]
+    ex_chunks = chunk(recs, ctx.pick(4, 24))
+    ex_dom = []
+    for i, c in enumerate(ex_chunks):
+        pth = os.path.join(ddir, "pat_%02d.json" % i)
+        write_json(pth, {"paths": pcodes, "patterns": c, "strings": []})
+        ex_dom.append(pth)
+    strs = strings_domain(ctx.pick(5, 6))
+    st_chunks = chunk(strs, ctx.pick(2, 10))
+    st_dom = []
+    for i, c in enumerate(st_chunks):
+        pth = os.path.join(ddir, "str_%02d.json" % i)
+        write_json(pth, {"paths": [], "patterns": [], "strings": [codes(x) for x in c]})
+        st_dom.append(pth)
+    # law domain: a small exhaustive core + a seeded sample of every family
+    lawpats = [a for a in family_plain(2)]
+    for fam in (family_one_group, family_three_alts, family_nested, family_two_groups):
+        lawpats += rnd.sample(list(fam()), ctx.pick(30, 150))
+    lawpats += family_big()[:2]
+    lawrecs = [{"id": i + 1, "ast": a, "big": i >= len(lawpats) - 2} for i, a in enumerate(lawpats)]
+    lawdom = os.path.join(ddir, "laws.json")
+    write_json(lawdom, {"paths": pcodes, "patterns": lawrecs, "strings": []})
+    empty = os.path.join(ddir, "empty.json")
+    write_json(empty, {"paths": [], "patterns": [], "strings": []})
+
+    # ---- phase 1 (parallel): build driver, laws on the reference, expansion tables, Valid tables
+    tabdir = ctx.subdir("tables")
+
+    def tab(mode, domfile, out, name):
+        return lambda: rt.table(ctx, "PathPatternTable", "PathPatternTable.cfg", out,
+                                {"VERIF_MODE": mode, "VERIF_DOMAIN": domfile}, name=name, timeout=ctx.pick(900, 2400))
+    ex_tabs = [os.path.join(tabdir, "expand_%02d.json" % i) for i in range(len(ex_dom))]
+    st_tabs = [os.path.join(tabdir, "valid_%02d.json" % i) for i in range(len(st_dom))]
+    jobs = [lambda: goharness.ext_test_build(ctx, PKG),
+            lambda: rt.laws(ctx, "PathPattern", "PathPattern_mc.cfg", env={"VERIF_DOMAIN": lawdom, "VERIF_MODE": "laws"},
+                            min_states=len(lawrecs), workers=ctx.pick(2, 4), timeout=ctx.pick(900, 2400))]
+    jobs += [tab("expand", d, o, "tab_expand_%02d" % i) for i, (d, o) in enumerate(zip(ex_dom, ex_tabs))]
+    jobs += [tab("valid", d, o, "tab_valid_%02d" % i) for i, (d, o) in enumerate(zip(st_dom, st_tabs))]
+    res = rt.parallel(jobs, par + 1)
+    binary, mc = res[0], res[1]
+    tlc_wall = sum(r.wall for r in res[1:])
+    if mc.distinct != len(lawrecs):
+        raise InfraError("laws: TLC explored %d states for %d patterns" % (mc.distinct, len(lawrecs)))
+    ctx.log("laws on the reference: %d patterns ok (%.0fs); %d expansion tables, %d Valid tables" % (mc.distinct, mc.wall, len(ex_tabs), len(st_tabs)))
+
+    # ---- phase 2: distinct expansions -> glob tables (TLC); meanwhile real-only drivers
+    distinct = {}
+    nexp = 0
+    for t in ex_tabs:
+        with open(t) as f:
+            for row in json.load(f)["rows"]:
+                for v in row["ex"]:
+                    nexp += 1
+                    distinct.setdefault(tuple(v), None)
+    variants = sorted(distinct, key=lambda v: (len(v), v))
+    gl_chunks = chunk(variants, ctx.pick(4, 24))
+    gl_dom, gl_tabs = [], []
+    for i, c in enumerate(gl_chunks):
+        pth = os.path.join(ddir, "glob_%02d.json" % i)
+        write_json(pth, {"paths": pcodes, "patterns": [], "strings": [list(v) for v in c]})
+        gl_dom.append(pth)
+        gl_tabs.append(os.path.join(tabdir, "glob_%02d.json" % i))
+    outdir = ctx.subdir("real")
+    obsdir = ctx.subdir("obs")
+    randobs = os.path.join(obsdir, "random.ndjson")
+    precobs = os.path.join(obsdir, "prec_all.ndjson")
+    nrand = ctx.pick(240, 6000)
+    jobs = [tab("glob", d, o, "tab_glob_%02d" % i) for i, (d, o) in enumerate(zip(gl_dom, gl_tabs))]
+    jobs.append(lambda: rt.drive(ctx, binary, "TestVerifC37Valid", os.path.join(outdir, "valid.ndjson"),
+                                 env={"VERIF_DOMAINS": ",".join(st_dom), "VERIF_TABLES": ",".join(st_tabs)}, timeout=1500))
+    jobs.append(lambda: rt.drive(ctx, binary, "TestVerifC37Random", randobs, env={"VERIF_N": nrand, "VERIF_NPATHS": 6}, timeout=1500))
+    jobs.append(lambda: rt.drive(ctx, binary, "TestVerifC37Precedence", precobs,
+                                 env={"VERIF_DOMAINS": ",".join(ex_dom), "VERIF_NSETS": ctx.pick(12, 150),
+                                      "VERIF_POOL_MAX": ctx.pick(1500, 6000), "VERIF_TRIPLE_MAX": ctx.pick(120, 250)}, timeout=2400))
+    res = rt.parallel(jobs, par + 2)
+    ng = len(gl_dom)
+    tlc_wall += sum(r.wall for r in res[:ng])
+    vrows, rrows, prows = res[ng], res[ng + 1], res[ng + 2]
+    ctx.log("tabulated PPM for %d distinct expansions (of %d) x %d paths in %d TLC runs" % (len(variants), nexp, len(P), ng))
+
+    # Valid table vs ParsePathPattern
+    vst = rt.stats_of(vrows)
+    table_violations(vrows, violations, None)
+    if vst["evaluations"] != len(strs):
+        raise InfraError("Valid driver evaluated %d of %d strings" % (vst["evaluations"], len(strs)))
+    if vst["accepted"] < 10 or vst["rejected"] < 10:
+        raise InfraError("vacuity guard: Valid domain has %d accepted / %d rejected strings" % (vst["accepted"], vst["rejected"]))
+    ctx.log("accept/reject: %d pattern strings (%d accepted, %d rejected), %d differences" % (len(strs), vst["accepted"], vst["rejected"], vst["bad"]))
+
+    # precedence: laws on the real outputs
+    pst = rt.stats_of(prows)
+    table_violations(prows, violations, None)
+    if pst["sets"] < 10 or pst["max_matching"] < 3:
+        raise InfraError("vacuity guard: precedence driver recorded %d sets, max %d matching variants" % (pst["sets"], pst["max_matching"]))
+    ctx.log("precedence on real outputs: pool %d variants, %d compares, %d triples, %d permutations, %d law violations"
+            % (pst["pool"], pst["compares"], pst["triples"], pst["permutations"], pst["law_violations"]))
+
+    # ---- phase 3 (parallel): table driver; I->T validations; binding canaries
+    sets = [r for r in prows if r.get("kind") == "set"]
+    precsets = os.path.join(obsdir, "prec_sets.ndjson")
+    common.write_ndjson(precsets, sets)
+    rchunks, nobs = rt.split_ndjson(randobs, ctx.pick(3, 12), obsdir, prefix="rand")
+    pchunks, nsets = rt.split_ndjson(precsets, ctx.pick(1, 4), obsdir, prefix="prec")
+    robs = {o["case"]: o for o in rrows}
+    sobs = {o["case"]: o for o in sets}
+
+    def val(mode, pth, tag):
+        return lambda: rt.validate_obs(ctx, "TracePathPattern", "TracePathPattern.cfg", pth,
+                                       os.path.join(obsdir, "verdict_%s.json" % tag), name="obs_%s" % tag,
+                                       env={"VERIF_MODE": mode, "VERIF_DOMAIN": empty}, timeout=ctx.pick(900, 2400))
+    # canaries: one corrupted observation per mode must be rejected and named
+    okcases = [o for o in rrows if o["ok"] and o["m"]][:6]
+    if not okcases:
+        raise InfraError("random driver produced no accepted pattern")
+    c1 = json.loads(json.dumps(okcases[0]))
+    c1["m"][0] = 1 - c1["m"][0] if c1["m"][0] in (0, 1) else 0
+    c2 = json.loads(json.dumps(okcases[1 % len(okcases)]))
+    c2["n"] += 1
+    c2["calls"] += 1
+    cm = os.path.join(obsdir, "corrupt_match.ndjson")
+    common.write_ndjson(cm, [c1, c2] + okcases[2:])
+    s1 = json.loads(json.dumps(sets[0]))
+    s1["winners"][-1] = 1 + (s1["winners"][-1] % s1["k"])         # one permutation picks another variant
+    s2 = json.loads(json.dumps(sets[1 % len(sets)]))
+    s2["cmp"][0][1] = s2["cmp"][1][0]                              # asymmetry broken
+    cp = os.path.join(obsdir, "corrupt_prec.ndjson")
+    common.write_ndjson(cp, [s1, s2] + sets[2:6])
+    # T->I canary: corrupt one glob row and one expansion row
+    with open(gl_tabs[0]) as f:
+        g0 = json.load(f)
+    with open(gl_dom[0]) as f:
+        g0d = json.load(f)
+    gi = next(i for i, row in enumerate(g0["rows"]) if row)          # a variant that matches something
+    canary_v = "".join(chr(c) for c in g0d["strings"][gi])
+    g0["rows"][gi] = g0["rows"][gi][1:]
+    g0bad = os.path.join(tabdir, "glob_00_corrupt.json")
+    write_json(g0bad, g0)
+    with open(ex_tabs[0]) as f:
+        e0 = json.load(f)
+    ei = next(i for i, row in enumerate(e0["rows"]) if row["n"] >= 2 and row["ex"])
+    e0["rows"][ei]["n"] -= 1
+    e0["rows"][ei]["ex"] = e0["rows"][ei]["ex"][:-1]
+    canary_p = render(ex_chunks[0][ei]["ast"])
+    e0bad = os.path.join(tabdir, "expand_00_corrupt.json")
+    write_json(e0bad, e0)
+
+    def table_drv(tag, doms, exps, gtabs, maxm):
+        return lambda: rt.drive(ctx, binary, "TestVerifC37Table", os.path.join(outdir, "table_%s.ndjson" % tag),
+                                env={"VERIF_DOMAINS": ",".join(doms), "VERIF_EXPAND": ",".join(exps),
+                                     "VERIF_GLOBDOM": ",".join(gl_dom), "VERIF_GLOB": ",".join(gtabs),
+                                     "VERIF_MAX_MISMATCH": maxm}, timeout=2400)
+    jobs = [table_drv("all", ex_dom, ex_tabs, gl_tabs, 100000),
+            table_drv("canary", ex_dom[:1], [e0bad], [g0bad] + gl_tabs[1:], 100000),
+            val("match", cm, "corrupt_match"), val("prec", cp, "corrupt_prec")]
+    jobs += [val("match", pth, "rand_%02d" % i) for i, pth in enumerate(rchunks)]
+    jobs += [val("prec", pth, "prec_%02d" % i) for i, pth in enumerate(pchunks)]
+    res = rt.parallel(jobs, par + 1)
+    trows, crows = res[0], res[1]
+    (cmv, _), (cpv, _) = res[2], res[3]
+    rres = res[4:4 + len(rchunks)]
+    pres = res[4 + len(rchunks):]
+
+    # binding canaries
+    if not any(r.get("kind") == "glob" and r["v"] == canary_v for r in crows):
+        raise InfraError("binding canary: a corrupted glob-table row for %r was not reported by the driver" % canary_v)
+    if not any(r.get("kind") == "count" and r["p"] == canary_p for r in crows):
+        raise InfraError("binding canary: a corrupted expansion row for %r was not reported by the driver" % canary_p)
+    badc = set(b["case"] for b in cmv["bad"])
+    if c1["case"] not in badc or c2["case"] not in badc:
+        raise InfraError("binding canary: corrupted random observations (cases %d, %d) were accepted by TracePathPattern: %s"
+                         % (c1["case"], c2["case"], sorted(badc)))
+    badp = set(b["case"] for b in cpv["bad"])
+    if s1["case"] not in badp or s2["case"] not in badp:
+        raise InfraError("binding canary: corrupted precedence observations (cases %d, %d) were accepted by TracePathPattern: %s"
+                         % (s1["case"], s2["case"], sorted(badp)))
+
+    # table driver
+    tst = rt.stats_of(trows)
+    if tst["patterns"] != len(dom):
+        raise InfraError("table driver evaluated %d of %d patterns" % (tst["patterns"], len(dom)))
+    table_violations(trows, violations, None)
+    ctx.log("real code on %d patterns x %d paths: differences by kind %s" % (tst["patterns"], tst["paths"], tst["total"]))
+
+    # I->T random
+    checked = 0
+    rand_bad = 0
+    for v, _ok in rres:
+        checked += v["checked"]
+        for b in v["bad"]:
+            o = robs[b["case"]]
+            rand_bad += 1
+            if b["exp_ok"] != b["got_ok"]:
+                cls = "accepts-invalid" if b["got_ok"] else "rejects-valid"
+                violations.append(Violation(key="%s: %s" % (cls, rt.q(o["s"])),
+                                            desc="ParsePathPattern(%s): accepted=%s, the reference says %s (%d expansions; random case %d, seed %d)"
+                                                 % (rt.q(o["s"]), b["got_ok"], b["exp_ok"], b["exp_n"], b["case"], ctx.seed), replay=o))
+            elif b["got_n"] != b["exp_n"] or b["got_n"] != b["got_calls"] or b["got_n"] > LIMIT:
+                violations.append(Violation(key="numvariants: %s" % rt.q(o["s"]),
+                                            desc="%s: NumVariants() = %d, callbacks = %d, reference Len(Expand) = %d (random case %d, seed %d)"
+                                                 % (rt.q(o["s"]), b["got_n"], b["got_calls"], b["exp_n"], b["case"], ctx.seed), replay=o))
+            else:
+                j = next(i for i, (e, g) in enumerate(zip(b["exp_m"], b["got_m"])) if e != g)
+                d = "pattern-only" if b["got_m"][j] == 1 else ("expansions-only" if b["got_m"][j] == 0 else "error")
+                violations.append(Violation(
+                    key="match[%s]: %s" % (d, rt.q(o["s"])),
+                    desc="PathPatternMatches(%s,%s) = %s but RefMatch (some expansion matches) = %s (random case %d, seed %d)"
+                         % (rt.q(o["s"]), rt.q(o["spaths"][j]), b["got_m"][j], b["exp_m"][j], b["case"], ctx.seed),
+                    replay={"pattern": o["s"], "path": o["spaths"][j], "real": b["got_m"][j], "reference": b["exp_m"][j], "n": o["n"]}))
+    if checked != nobs or nobs != nrand:
+        raise InfraError("I->T: %d random observations recorded, %d written, %d validated" % (nrand, nobs, checked))
+    rand_or_diff = sum(1 for o in rrows if o["ok"] and o["m"] != o["or_variants"])
+    ctx.log("I->T: %d random patterns validated by TLC, %d differ from the reference; %d differ from the OR over their own variants"
+            % (checked, rand_bad, rand_or_diff))
+
+    # I->T precedence
+    pchecked = 0
+    for v, _ok in pres:
+        pchecked += v["checked"]
+        for b in v["bad"]:
+            o = sobs[b["case"]]
+            failed = [k for k in ("noerror", "irreflexive", "asymmetric", "transitive", "tiesidentical", "winnersmax", "oneclass") if not b[k]]
+            violations.append(Violation(
+                key="precedence-order: path=%s variants=%s" % (rt.q(o["path"]), json.dumps(o["vs"])),
+                desc="recorded Compare matrix / winners for variants %s on path %s rejected by TracePathPattern (%s)"
+                     % (json.dumps(o["vs"]), rt.q(o["path"]), ",".join(failed)), replay=o))
+    if pchecked != nsets or nsets != len(sets):
+        raise InfraError("I->T: %d precedence sets recorded, %d validated" % (len(sets), pchecked))
+    ctx.log("I->T: %d precedence sets (all permutations) validated by TLC" % pchecked)
+
+    # ---- de-duplicate, cap per class
+    seen = set()
+    uniq = []
+    for v in violations:
+        if v.key not in seen:
+            seen.add(v.key)
+            uniq.append(v)
+    uniq.sort(key=lambda v: (len(v.key), v.key))
+    byclass = {}
+    for v in uniq:
+        byclass[klass(v)] = byclass.get(klass(v), 0) + 1
+    cap = 25
+    kept = []
+    cnt = {}
+    for v in uniq:
+        c = klass(v)
+        cnt[c] = cnt.get(c, 0) + 1
+        if cnt[c] <= cap:
+            kept.append(v)
+    if len(kept) < len(uniq):
+        notes.append("%d distinct violation keys in %d classes; the %d shortest keys of every class are reported (see violations_by_class)"
+                     % (len(uniq), len(byclass), cap))
+
+    samples = []
+    for o in rrows[:3]:
+        if o["ok"] and o["spaths"]:
+            samples.append({"pattern": o["s"], "NumVariants": o["n"], "path": o["spaths"][0], "PathPatternMatches": o["m"][0]})
+    for sset in sets[:2]:
+        samples.append({"path": sset["path"], "variants": sset["vs"], "Compare": sset["cmp"],
+                        "HighestPrecedencePattern(every permutation)": sorted(set(sset["vs"][w - 1] for w in sset["winners"] if w))})
+    for r in trows:
+        if r.get("kind") in ("match", "normalise") and len(samples) < 8:
+            samples.append({k: r[k] for k in r if k != "ex" or len(r["ex"]) < 6})
+
+    evals = tst["evaluations"] + vst["evaluations"] + pst["compares"] + pst["permutations"] + pst["highest_calls"] \
+        + sum(1 + len(o["m"]) for o in rrows)
+    cov = {
+        "evaluations": evals,
+        "distinct_nontrivial": tst["distinct_match_sets"],
+        "rule": "real PathPatternMatches(p,path) == OR over Expand(p) of PathPatternMatches(v,path) == OR over the enumerated "
+                "variants; real brace-less matching == PathPattern!PPM; NumVariants == callbacks == Len(PathPattern!Expand) <= 1000; "
+                "ParsePathPattern accepts exactly PathPattern!Valid /\\ Accepted; Compare is a strict weak order on the variants "
+                "matching a path and HighestPrecedencePattern returns its maximum for every permutation",
+        "samples": samples,
+        "domain": {"patterns": len(dom), "families": sizes, "paths": len(P), "pattern_strings_accept_reject": len(strs),
+                   "distinct_expansions": len(variants), "expansions": nexp},
+        "table": {k: tst[k] for k in ("patterns", "accepted", "rejected", "count_only", "variants", "glob_strings", "paths",
+                                      "distinct_match_sets", "order_exact", "refmatch_diff_pairs",
+                                      "pattern_vs_variants_diff_pairs", "hist", "total", "match_errors")},
+        "accept_reject": {k: vst[k] for k in ("evaluations", "accepted", "rejected", "bad", "reasons")},
+        "precedence_on_real": {k: pst[k] for k in pst if k != "kind"},
+        "random_observations_validated_by_tlc": checked,
+        "random_differences": rand_bad,
+        "random_patterns_differing_from_own_variants": rand_or_diff,
+        "precedence_sets_validated_by_tlc": pchecked,
+        "violations_by_class": byclass,
+        "tlc_law_states": mc.distinct,
+        "tlc_law_invariants": ["CountIsLen", "OptimizeNeutral", "ExpansionsPlain", "RenderedValid", "SlashRules",
+                               "EscapeIsLiteral", "EscapedStarLiteral"],
+        "tlc_constants": {"Limit": LIMIT, "paths": len(P), "law_patterns": len(lawrecs)},
+        "tlc_table_runs": len(ex_tabs) + len(st_tabs) + len(gl_tabs),
+        "tlc_jvm_seconds": round(tlc_wall),
+        "binding_canaries": "corrupted glob row, corrupted expansion row, corrupted random observations (match bit, count) and "
+                            "corrupted precedence observations (winner, asymmetry) all rejected and named",
+    }
+    return Result(level="exploration", coverage=cov,
+                  assumptions=[
+                      "brace-less matching is the behaviour of doublestar v4.6.1 Match as transcribed in PathPattern!DS (including its "
+                      "end-of-name rule: what is left of the pattern must be one of \"\", *, **, /**, **/, /**/), calibrated on the whole domain",
+                      "paths contain no repeated '/', no wildcard or escape characters (path alphabet a b / in the table, "
+                      "a-c x-z . - _ 0 in random cases); pattern bytes are ASCII",
+                      "precedence is checked on the real Compare outputs (I->T): the reference states the order laws, it does not "
+                      "re-derive the regular-expression submatches",
+                  ],
+                  violations=kept, notes=notes)
